@@ -206,8 +206,13 @@ func (c *LRUCache) Set(key string, value interface{}, ttl time.Duration) error {
 		return nil
 	}
 
-	// Evict if necessary
-	for c.evictList.Len() >= c.capacity || (c.maxSize > 0 && c.currentSize+size > c.maxSize) {
+	// An entry that can never fit is rejected instead of evicting forever
+	if c.capacity <= 0 || (c.maxSize > 0 && size > c.maxSize) {
+		return fmt.Errorf("cache: entry %q does not fit (capacity %d, max size %d bytes)", key, c.capacity, c.maxSize)
+	}
+
+	// Evict if necessary; stop once nothing is left to evict
+	for c.evictList.Len() > 0 && (c.evictList.Len() >= c.capacity || (c.maxSize > 0 && c.currentSize+size > c.maxSize)) {
 		c.evictOldest()
 	}
 
@@ -256,7 +261,11 @@ func (c *LRUCache) SetWithTags(key string, value interface{}, ttl time.Duration,
 		return nil
 	}
 
-	for c.evictList.Len() >= c.capacity || (c.maxSize > 0 && c.currentSize+size > c.maxSize) {
+	if c.capacity <= 0 || (c.maxSize > 0 && size > c.maxSize) {
+		return fmt.Errorf("cache: entry %q does not fit (capacity %d, max size %d bytes)", key, c.capacity, c.maxSize)
+	}
+
+	for c.evictList.Len() > 0 && (c.evictList.Len() >= c.capacity || (c.maxSize > 0 && c.currentSize+size > c.maxSize)) {
 		c.evictOldest()
 	}
 
